@@ -48,7 +48,7 @@ def items(tier: str) -> List[Any]:
                     # one tracked atom per slot position, the others free; plus two fixed mixed fillings
                     fills = []
                     for j in range(k):
-                        for a in (1, 2, 4, 5, 6) if tier == "quick" else range(1, len(alpha)):
+                        for a in (1, 2, 4, 5, 6) if (tier == "quick" or size == 3) else range(1, len(alpha)):
                             fills.append([a if i == j else 0 for i in range(k)])
                     fills.append([(i % (len(alpha) - 1)) + 1 for i in range(k)])
                 for f in fills:
